@@ -4,7 +4,7 @@
    The abstract map `abs` (sorted sequence of <<key, value id>>) carries the meaning of the API (C02, C03, C10);
    the node map follows the transliterated algorithms of YkTree (and must equal the dump when "S" \in ON).
    ON selects which families of conjuncts are enforced, so that a rejection is attributable to one property. *)
-EXTENDS YkTree, Json, IOUtils
+EXTENDS YkTree, YkIscan, Json, IOUtils
 CONSTANTS ON, LENIENT
 Log == ndJsonDeserialize(IOEnv.TRACE)
 VARIABLES node, root, nextId, abs, l, lastRead, lastMem, sizes, vsz
@@ -160,6 +160,8 @@ TIscan == /\ E.op = "iscan"
                                                   /\ E.st = (IF Len(full) = 0 THEN "OK_SCAN_END" ELSE "OK")
                                                   /\ E.end = (IF exhausted THEN "OK_SCAN_END" ELSE "OK"),
                    [exp |-> KeysOf(want), got |-> KeysOf(got), rtl |-> E.rtl, expend |-> IF exhausted THEN "OK_SCAN_END" ELSE "OK"])
+             /\ J("S", "iscan-model", okargs => LET res == IscanRun(node, root, E.l, E.le, E.r, E.re, E.rtl, E.limit) IN res.tl = got /\ NvOf(res) = LogNv,
+                   [nv |-> IF okargs THEN NvOf(IscanRun(node, root, E.l, E.le, E.r, E.re, E.rtl, E.limit)) ELSE <<>>])
              /\ J("C05", "iscan-nv-nonempty", (okargs /\ got = want) => Len(E.nv) >= 1, [x |-> 0])
              /\ J("C05", "iscan-phantom-model", (okargs /\ got = want /\ Chk("M")) => Undetected(pl, ple, pr, pre) = {},
                    [undetected |-> IF okargs /\ got = want /\ Chk("M") THEN Undetected(pl, ple, pr, pre) ELSE {}])
